@@ -739,7 +739,8 @@ def rule_F4(prog):
                 r.ob(ok, "%s line %d: conversion %s" % (fn.path, lit["line"], f))
                 if not ok:
                     r.find(fn.path, "conversion", "Change -> InlineChange conversion must copy tag, old_index and new_index "
-                           "from the same-named accessors; found %s" % f, file=fn.file, line=lit["line"])
+                           "from the same-named accessors; found %s" % f, file=fn.file, line=lit["line"],
+                           undecided=not re.search(r"\.tag\(\)$", str(f.get("tag", ""))))   # the tag is a computed local, not an accessor: not a conversion this rule knows
                 continue
             want = {"Equal": (True, True), "Delete": (True, False), "Insert": (False, True)}.get(tag)
             got = (lit["old_some"], lit["new_some"])
@@ -758,7 +759,8 @@ def rule_F4(prog):
         r.instances += 1
         if len(ms) != 1:
             r.ob(False, "ChangesIter::next: %d matches over DiffTag" % len(ms))
-            r.find(fn.path, "no-tag-match", "ChangesIter::next has no single exhaustive match over the op tag", file=fn.file, line=fn.line)
+            r.find(fn.path, "no-tag-match", "ChangesIter::next has no single exhaustive match over the op tag", file=fn.file, line=fn.line,
+                   undecided=True)      # the rule's anchor (one match over the tag) is gone: nothing decided about this function
             continue
         mn, arms = ms[0]
         for v, want in CHANGES.items():
@@ -1722,7 +1724,8 @@ def rule_F9(prog):
             r.ob(ok, "iter_inline_changes arm %s: push_values flags %s" % (v, flags))
             if not ok:
                 r.find(fn.path, "emphasis:%s" % v, "in the %s arm push_values must be called with emphasized=%s; found %s" % (
-                    v, want[4:], flags), file=fn.file, line=a["pat"].get("line", fn.line))
+                    v, want[4:], flags), file=fn.file, line=a["pat"].get("line", fn.line),
+                       undecided=(not flags))    # no push_values call and no flag found in the arm: shape not recognised
         # early return for non-Replace first-level tags: an `if let Equal|Insert|Delete = tag { return }` before the match
         early = find_nodes(fn.hir["body"], lambda n: n["k"] == "letx" and variant_of_pat(n["pat"]) is not None)
         vs = set()
